@@ -2734,6 +2734,82 @@ func c14r18(c *Ctx, r *Report) {
 	r.floor("... that write a raw offset back after constrain", raw, 1)
 }
 
+// c16r19: a POST is complete when Content-Length bytes of body have arrived. The scanner delivers the body in
+// CRLF-terminated pieces; after each piece the handler has to ask whether that was all, because asking the
+// scanner for another token blocks until the client sends more or the read deadline expires — and the server
+// handles one connection at a time (D64: a body ending in CRLF was answered after the 10 s deadline, every
+// other client waited behind it; an unauthenticated client could do that).
+func c16r19(c *Ctx, r *Report) {
+	l := c.L
+	r.rule("C16-R19", "A (must-pass-through between two reads of the body)", "P1",
+		"in httpServer.handleHttpRequest, every path from the statement that appends a token to the body to the next call of bufio.Scanner.Scan passes a branch on a comparison of len(body) with the announced content length",
+		"a complete request is answered only when the read deadline expires; the serial listener is blocked for every other client in the meantime")
+	fn := l.Fn("fzf", "(*httpServer).handleHttpRequest")
+	if fn == nil {
+		r.unest("anchors", token.NoPos, nil, "anchor httpServer.handleHttpRequest", "cannot resolve")
+		return
+	}
+	// the cells: body (string, appended to) and contentLength (int, assigned from Atoi)
+	var bodyCell, clCell *ssa.Alloc
+	for _, f := range withClosures(fn) {
+		eachInstr(f, func(in ssa.Instruction) {
+			al, ok := in.(*ssa.Alloc)
+			if !ok {
+				return
+			}
+			switch al.Comment {
+			case "body":
+				bodyCell = al
+			case "contentLength":
+				clCell = al
+			}
+		})
+	}
+	if bodyCell == nil || clCell == nil {
+		r.unest(relName(fn)+":cells", fn.Pos(), fn, "the body and content-length variables", "cannot find the variables")
+		return
+	}
+	loadsOf := func(v ssa.Value, cell *ssa.Alloc) bool {
+		for w := range backwardSlice(v, nil, func(x ssa.Value) bool { _, isAlloc := x.(*ssa.Alloc); return isAlloc }) {
+			if u, ok := w.(*ssa.UnOp); ok && u.Op == token.MUL && u.X == ssa.Value(cell) {
+				return true
+			}
+		}
+		return false
+	}
+	isTest := func(in ssa.Instruction) bool {
+		iff, ok := in.(*ssa.If)
+		if !ok {
+			return false
+		}
+		b, ok := iff.Cond.(*ssa.BinOp)
+		if !ok {
+			return false
+		}
+		return loadsOf(b.X, bodyCell) && loadsOf(b.Y, clCell) || loadsOf(b.Y, bodyCell) && loadsOf(b.X, clCell)
+	}
+	isScan := func(in ssa.Instruction) bool {
+		call, ok := in.(*ssa.Call)
+		return ok && calleeName(call.Common()) == "(*bufio.Scanner).Scan"
+	}
+	n := 0
+	eachInstr(fn, func(in ssa.Instruction) {
+		st, ok := in.(*ssa.Store)
+		if !ok || st.Addr != ssa.Value(bodyCell) {
+			return
+		}
+		add, ok := st.Val.(*ssa.BinOp)
+		if !ok || add.Op != token.ADD {
+			return
+		}
+		n++
+		hit := pathAvoiding(st, isScan, isTest, nil)
+		r.check(hit == nil, fmt.Sprintf("%s:append #%d to the body is followed by a completeness test", relName(fn), n), st.Pos(), fn,
+			"the next token is only requested after len(body) was compared with the content length", "after a piece of the body has been appended the scanner is asked for more without checking whether the body is already complete")
+	})
+	r.floor("appends to the request body", n, 1)
+}
+
 // round8 runs the round-8 rules of a property (own and shared) after the property's older rules.
 func round8(c *Ctx, r *Report, prop string) {
 	switch prop {
@@ -2781,6 +2857,7 @@ func round8(c *Ctx, r *Report, prop string) {
 		c15r14(c, r)
 		c15r15(c, r)
 	case "C16":
+		c16r19(c, r)
 		c16r17(c, r)
 		c16r18(c, r)
 	case "C17":
